@@ -624,6 +624,10 @@ func schedTest(t *testing.T, prop string) {
 	}
 	exhaustiveBlocks := 0
 	rapid.Check(t, func(rt *rapid.T) {
+		// the five properties that share this driver explore different blocks
+		for i := 0; i < int(prop[1]-'0')*10+int(prop[2]-'0'); i++ {
+			uni(rt, "salt", 2)
+		}
 		c := genBlockCase(rt)
 		// first the schedule without preemption (it also tells how many yields there are) ...
 		base := make([]int, 1)
@@ -680,7 +684,7 @@ func schedTest(t *testing.T, prop string) {
 			col.Case(bb, r.preempts >= 1, map[string]int{"extra_schedule": 1, "preempted": r.preempts}, func() any { return cc.pretty() })
 			report(r, ch)
 		}
-		if thorough && exhaustiveBlocks < 400 {
+		if thorough && exhaustiveBlocks < 120 {
 			// every schedule with at most 2 preemptions of this block (stateless re-execution)
 			exhaustiveBlocks++
 			n := enumerateSchedules(c, 2, func(choices []int, r blockResult) bool {
@@ -740,7 +744,7 @@ func enumerateSchedules(c blockCase, maxPre int, visit func(choices []int, r blo
 			return schedulePolicy(prefix, y, i)
 		})
 		n++
-		if !visit(prefix, res) || n > 3000 {
+		if !visit(prefix, res) || n > 2000 {
 			return
 		}
 		// preemptions used by the prefix
